@@ -1427,3 +1427,16 @@ def accessor_agreement(ctx, rule, v, struct, setfmt, getfmt, table):
                 (lambda l: l is not None and l.op == 'load' and g.field(l) == struct + '.' + fld)(g.get(g.strip(o.ops[0]))) for o in outs)
         ctx.ob(rule, '%s reads %s' % (getfmt % x, ', '.join(f for _i, f in pairs)), okg,
                'the getter returns the field(s) the setter wrote', loc=g.loc)
+
+
+def sleep_container_init_complete(ctx, rule, fl, kind):
+    """the wait container embedded in a synchronisation object (kind 'queue': mutex, condition variable, join counter; 'stack':
+    barrier) is itself initialised completely: every field its insert / remove operations read is written by its initialiser.
+    The insertion runs inside a context-switch callback that receives the container, not the object, so the object-level
+    initialiser-completeness rule does not see these reads."""
+    names = {'queue': ('myth_sleep_queue_init', ['myth_sleep_queue_enq', 'myth_sleep_queue_deq']),
+             'stack': ('myth_sleep_stack_init', ['myth_sleep_stack_push', 'myth_sleep_stack_pop'])}[kind]
+    v = ctx.view('myth_if_native.c', roots=[names[0]] + names[1], stops=SPIN_STOPS, flavour=fl)
+    n = init_covers(ctx, rule, v, names[0], names[1], 'sleep ' + kind)
+    ctx.ob(rule, 'sleep %s: fields read by insert / remove enumerated' % kind, n >= (2 if kind == 'queue' else 1),
+           'read set of the container operations', loc='src/myth_sleep_queue_func.h', detail=str(n))
